@@ -217,7 +217,9 @@ func Scenarios() []*Scenario {
 			name = "create/big"
 		}
 		add(&Scenario{Name: name, Func: FNFTCreate, OwnField: "ESDTNFTCreate", Mult: 1,
-			Exec: func(s *Scn, g uint64) *node.Leg { return s.U.N.Exec(gen.SelfCall(FNFTCreate, s.A, g, createArgs(s, bigv)...)) },
+			Exec: func(s *Scn, g uint64) *node.Leg {
+				return s.U.N.Exec(gen.SelfCall(FNFTCreate, s.A, g, createArgs(s, bigv)...))
+			},
 			PerByte: func(s *Scn, l *node.Leg) map[string]uint64 {
 				return map[string]uint64{"StorePerByte": sumLen(l.Call.Args)}
 			}})
